@@ -49,6 +49,25 @@ def run_unit(mod, unit):
     h.body = counted
     h._fns = {}
     r = ch.run_condition(h, "_ != 2", timeout, unit.get('per_path_timeout'))
+    # A counterexample that does not replay natively can be an artefact of CrossHair's string modelling; exclude that
+    # exact input and search again (at most 3 times) so that a real counterexample behind it is still found.
+    spurious = []
+    while r['state'] in ('POST_FAIL', 'EXEC_ERR') and r['args'] is not None and len(spurious) < 3:
+        try:
+            if info is not None:
+                info.clear()
+            code0 = h.run_native(r['args'])
+        except Exception:
+            break
+        if code0 == 2 or (info and info.get('not_end_to_end')):
+            break
+        spurious.append(r['args'])
+        clause = ' and '.join('%s == %r' % (k, v) for k, v in r['args'].items())
+        h.extra_pre = list(h.extra_pre) + ['not (%s)' % clause]
+        h._fns = {}
+        r = ch.run_condition(h, "_ != 2", timeout, unit.get('per_path_timeout'))
+    if spurious:
+        res['spurious_counterexamples_excluded'] = _jsonable(spurious)
     h.body = body
     res.update(state=r['state'], paths=r['paths'], solver_s=r['solver_s'], solver_calls=r['solver_calls'],
                cpu_s=r['cpu_s'], nontrivial_paths=nt[0])
@@ -92,6 +111,10 @@ def run_unit(mod, unit):
             res['replay'] = _jsonable(dict(native_result=code, exception=exc, info=(dict(info) if info else None)))
             if code == 2:
                 res['verdict'] = 'violated'
+            elif info and info.get('not_end_to_end'):
+                # a unit-level counterexample against a stubbed collaborator that the end-to-end replay through the real
+                # collaborator does not confirm: the stub's contract does not cover this implementation -> inconclusive
+                res.update(verdict='inconclusive', detail='unit-level counterexample not confirmed end-to-end: %s' % info.get('reason', ''))
             else:
                 res.update(verdict='harness_error',
                            detail='counterexample does not reproduce natively (result %r) %s' % (code, r.get('traceback', '')[-600:]))
